@@ -190,8 +190,10 @@ def price_case(crit_kind, n_times, clause=False):
             crit.a = a
         hedger = cm.make_hedger(c, ["log_moneyness", "time_to_maturity", "volatility"], 1, criterion=crit)
         sim = SimStub(c, deriv, N, T)
-        price = hedger.price(deriv, n_paths=N, n_times=n_times)
+        tok = (1.25,)  # a non-default initial state: it must reach every simulate() call price() makes (documented argument)
+        price = hedger.price(deriv, n_paths=N, n_times=n_times, init_state=tok)
         c.check("price is a scalar", tuple(price.shape) == ())
+        c.check("price simulates from the caller's init_state", len(sim.args) >= 1 and all(a_[1] is not None and tuple(a_[1]) == tok for a_ in sim.args))
         c.check("price simulates n_times batches of the requested size", len(sim.args) == n_times and all(a_[0] == N for a_ in sim.args))
         # the same paths again, evaluated by hand: minus the cash amount of (portfolio - payoff)
         vals = []
